@@ -198,16 +198,25 @@ class DateTime(SimpleModel):
         # ``values`` holds what the user declared, so a naive value has to be
         # looked up as it is; only the range checks need an aware datetime.
         declared = value
-        if isinstance(value, datetime.datetime) and value.tzinfo is None:
-            value = value.replace(tzinfo=spyne.LOCAL_TZ)
+
+        def aware(dt):
+            # bounds declared without a time zone are in LOCAL_TZ, like values
+            # that arrive without one.
+            if isinstance(dt, datetime.datetime) and dt.tzinfo is None:
+                return dt.replace(tzinfo=spyne.LOCAL_TZ)
+            return dt
+
+        value = aware(value)
+        gt, ge = aware(cls.Attributes.gt), aware(cls.Attributes.ge)
+        lt, le = aware(cls.Attributes.lt), aware(cls.Attributes.le)
         return SimpleModel.validate_native(cls, declared) and (
             value is None or (
                 # min_dt is also a valid value if gt is intact.
-                    (cls.Attributes.gt is None or value > cls.Attributes.gt)
-                and value >= cls.Attributes.ge
+                    (gt is None or value > gt)
+                and value >= ge
                 # max_dt is also a valid value if lt is intact.
-                and (cls.Attributes.lt is None or value < cls.Attributes.lt)
-                and value <= cls.Attributes.le
+                and (lt is None or value < lt)
+                and value <= le
             ))
 
 
